@@ -513,8 +513,13 @@ func (env *Env) callExpr(x *ECall) (TV, error) {
 			if v.pure {
 				return TV{}, errf("len of a ghost map")
 			}
-			_, _, l := enc.mapComps(u)
-			return TV{t: app("select", env.mem.get(l), v.t), ty: tInt}, nil
+			d, _, l := enc.mapComps(u)
+			ln := app("select", env.mem.get(l), v.t)
+			if !strings.Contains(v.t, "q$") {
+				// a fact about every map state: len >= 0, and len == 0 iff the domain is empty
+				env.vc.assume("true", env.vc.mapLenWF(u, d, ln, v.t, env.mem))
+			}
+			return TV{t: ln, ty: tInt}, nil
 		case *types.Basic:
 			return TV{t: app("strlen", v.t), ty: tInt}, nil
 		case *types.Array:
